@@ -306,6 +306,15 @@ def run_exp(sh, ctx):
 					inputs.append(QueryInput(q['label']))
 			results = query(db, qs, params, inputs=inputs)
 			results.extra = rng.choice([{}, {'note': 'ünï', 'n': [1, 2, {'a': None}]}])
+			if rng.random() < 0.4:
+				# the exporters are handed result objects: distances that print unusually (exponent notation, denormal, 9 significant
+				# digits, just below 1) - any single-precision value is a legal distance as far as export is concerned
+				edge = [1e-05, 3.2e-05, 9.999999e-05, 1e-07, 1.1754944e-38, 1.4e-45, 0.99999994, 0.33333334, 0.1, 5.9604645e-08]
+				for it in results.items:
+					ms = {id(m): m for m in it.closest_genomes + [it.classifier_result.closest_match] + ([it.classifier_result.primary_match] if it.classifier_result.primary_match else [])}
+					for m in ms.values():
+						m.distance = np.float32(rng.choice(edge))
+				ctx.count('results_with_edge_distances')
 			feats = features(results)
 			for f in feats:
 				ctx.count(f'feature:{f}')
@@ -406,6 +415,8 @@ def run_shard(sh, ctx):
 
 def finalize(merged, tier, seed, inconclusive):
 	c = merged['counters']
+	if c.get('results_with_edge_distances', 0) == 0:
+		inconclusive.append('class never observed: results_with_edge_distances')
 	need = ['format:csv', 'format:json', 'format:archive', 'csv_ok', 'json_ok', 'archive_ok', 'feature:no-prediction', 'feature:unreportable-predicted-taxon', 'feature:failed-strict-result',
 	        'feature:warnings', 'feature:no-source-file', 'feature:with-source-file', 'feature:primary-not-closest', 'chars:comma', 'chars:dquote', 'chars:LF', 'chars:CRLF', 'chars:non-BMP',
 	        'chars:bare-CR', 'worlds_with_second_genome_set', 'via:fileobj', 'via:path', 'pretty:True', 'cli_commands']
